@@ -126,6 +126,34 @@ def check(spec):
     return globals()["_check_" + kind](spec)
 
 
+def _check_splitstate(spec):
+    """Splitting transforms on measurement lists that contain state-type measurements (state, density matrices):
+    complex results, compared entrywise with the reference reduced density matrices / state vector."""
+    import numpy as np
+    import pennylane as qp
+    from mc import x_meas as M
+
+    tname, circ, codes = spec["t"], spec["circ"], spec["meas"]
+    tape = qp.tape.QuantumScript(M.build_ops(circ, None), [M.build_mp(c) for c in codes])
+    try:
+        tapes, fn = _apply(tname, tape, spec)
+        res = fn(_execute(tapes))
+    except (qp.exceptions.QuantumFunctionError, qp.exceptions.DeviceError, NotImplementedError, ValueError, RuntimeError) as e:
+        return skip(type(e).__name__)
+    exp = _reference(circ, codes)
+    if len(codes) == 1:
+        res = (res,)
+    if not isinstance(res, (tuple, list)) or len(res) != len(exp):
+        return bad(f"{tname}:state-list:result-count", repr(res)[:200], len(exp))
+    for code, r, e in zip(codes, res, exp):
+        r, e = np.asarray(r), np.asarray(e)
+        if r.shape != e.shape:
+            return bad(f"{tname}:{code.split(':')[0]}:shape:state-list", list(r.shape), list(e.shape), meas=codes)
+        if not np.allclose(r, e, atol=1e-9):
+            return bad(f"{tname}:{code.split(':')[0]}:value:state-list", r, e, meas=codes)
+    return ok(outcome=[tname, len(tapes), codes], nontrivial=_changed(tapes, tape))
+
+
 def _check_split(spec):
     import pennylane as qp
     from mc import x_meas as M
@@ -472,6 +500,16 @@ def run(ctx):
                 for sup, eig in DIAGS[:3]:
                     specs.append({"kind": "diag", "circ": "gen", "meas": codes, "sup": sup, "eig": eig})
     ctx.enumerate(specs, axis="split+diag")
+
+    # measurement lists containing state-type measurements (state, reduced density matrices)
+    st_alpha = ["d:0", "d:2", "d:10", "st:", "e:X0", "e:Z0", "p:10"]
+    specs = []
+    for codes in _lists(st_alpha, 3):
+        if not any(c[0] in ("d", "s") for c in codes):
+            continue
+        for t in SPLITS:
+            specs.append({"kind": "splitstate", "t": t, "circ": "gen", "meas": codes})
+    ctx.enumerate(specs, axis="split-with-state-measurements")
 
     # broadcast: splitting transforms on broadcast tapes, broadcast_expand, batch_params, batch_input
     bl = _lists(["e:X0", "e:ZZ", "e:SUM", "e:I0", "e:HAM", "v:Y1", "p:10", "e:HER1"] if quick else ALPHABET, 2)
